@@ -89,6 +89,9 @@ def drive(items):
             tb = traceback.format_exc().splitlines()
             detail = f'{type(e).__name__}: ' + ' | '.join(tb[-8:])
     with NoTracing():
+        if outcome == 'aborted' and ctx.pending_violation is not None:
+            # the violation was raised inside an event and the simulator's error reporting replaced it by its own exception
+            outcome, (label, detail) = 'violation', ctx.pending_violation
         st.counters.update(ctx.counters)
         sub = st.sub['name']
         if outcome == 'violation':
